@@ -65,6 +65,9 @@ type L1 struct {
 
 	Perm *PermKeeper
 	Chan *ChanKeeper
+
+	// T, when set, records every delivered transaction (shared by branches).
+	T *Transcript
 }
 
 // PermKeeper is an in-store stand-in for initia's ibcperm keeper.
@@ -254,7 +257,9 @@ func fund(ctx sdk.Context, bk bankkeeper.BaseKeeper, addr sdk.AccAddress, coins 
 
 // Deliver runs one transaction made of msgs with baseapp semantics.
 func (c *L1) Deliver(msgs ...sdk.Msg) Result {
-	return deliver(c.Ctx, c.Router, 0, msgs...)
+	r := deliver(c.Ctx, c.Router, 0, msgs...)
+	c.T.AddResult(msgs, r)
+	return r
 }
 
 func deliver(ctx sdk.Context, router *baseapp.MsgServiceRouter, gasLimit uint64, msgs ...sdk.Msg) (res Result) {
